@@ -11,6 +11,7 @@ UNITS = {
     'bus': {},
     'core_step': {},
     'video_timing': {},
+    'codecache': {},
 }
 
 PROPS = {
@@ -120,6 +121,42 @@ PROPS['C14'] = {
     'level_text': 'VideoState::run_clock_cycles (sliced, R7), check_current_line, check_mode_interrupt, get_lcd_status, get_ly, get_current_mode, new and the register setters are proved for every elapsed time (multiple of 4), every STAT enable mask and LYC: the (line, offset, mode) state after n clocks equals lcd_run(n/4) of the reference schedule (456-clock lines 0..153, modes 2/3/0 = 80/188/188 clocks, lines 144-153 mode 1), the returned VBlank/STAT requests equal the OR of the per-step reference flags (VBlank exactly when LY becomes 144; STAT on entry to modes 2/0/1 with their enables and when LY becomes LYC), STAT bits 0-2 reflect the schedule; lemma_lcd_batching proves independence of batching and lemma_lcd_frame_period the 70224-clock frame.',
     'level_note': 'Termination / panic-freedom of the sliced pixel code is not part of this claim (assumed by R7). The register-file frame is proved on a second copy of the same extracted text (run_clock_cycles_frame).',
     'assumptions': ['elapsed time per batch is a multiple of 4 clocks (callers pass 4 x machine cycles)'],
+}
+
+_JIT_TB = ['Kani 0.68 + CBMC 6.11 (SAT back end)', 'kani/src/x86.rs: x86-64 semantics for the instruction forms the emitter uses (trusted model)',
+           'reference = the real decoder + interpreter (pinned to the SM83 spec by C05/C06)', 'recording-bus stub for memory_read_byte/memory_write_byte',
+           'the repository files are compiled unmodified via #[path] includes (no extraction)']
+PROPS['C01'] = {
+    'level': 'proof', 'kani': ['jit'], 'trusted_base': _JIT_TB, 'design_ref': 'DESIGN.md 5.1',
+    'technique': 'Kani/CBMC per-opcode translation validation: bytes of the real Emitter::encode_op == derived template (all immediates), template executed under an x86-64 model == real interpreter (all guest/host states)',
+    'level_text': 'For each defined encoding (thorough: all 500; quick: a stratified subset incl. every block terminator and every helper-call shape) CBMC proves for every guest register/flag/immediate/bus value and every unspecified host register and flag: (a) the real encode_op emits exactly the template derived natively from it, (b) that template, run under the x86-64 model with helper calls havocking the SysV caller-saved state, leaves AF/BC/DE/HL/SP/PC and the status code exactly as decoder::decode + interpreter::run_op do, performs the same bus writes with the same values in the same order, calls helpers with the MemoryAreas pointer, keeps rsp/rbp and the host stack balanced and leaves only by falling off its end.',
+    'level_note': 'Per-instruction contract; multi-instruction blocks follow by sequential composition of self-contained templates (argument in DESIGN.md 5.1, not mechanised); prologue/epilogue and the block loop of translate_code_block are not yet under contract. A model fault or template mismatch is reported as undecided, never as a violation.',
+    'assumptions': ['x86 model is trusted (self-tested against the host CPU by the replay binary where available)'],
+}
+PROPS['C02'] = {
+    'level': 'proof', 'kani': ['jit'], 'trusted_base': _JIT_TB, 'design_ref': 'DESIGN.md 5.2',
+    'technique': 'same Kani/CBMC per-opcode harnesses, named check "C02: cycles": r15 after the template == Registers.cycles after run_op + cycles/4, flags symbolic (taken and not taken)',
+    'level_text': 'Same harnesses as C01; the check "C02: cycles" proves that the 16-bit cycle counter the translated code leaves in r15 equals what interpreter::run_next_op accumulates for the same instruction, for every flag state (both outcomes of every conditional JP/JR/CALL/RET). Sums over blocks follow from per-instruction equality.',
+    'level_note': 'Core::run_code_block conversion of the counter to device time is covered by C09 for the interpreter build only.',
+    'assumptions': [],
+}
+
+_CC_TB = _CORE_TB + ['vstd specification of std::collections::BTreeMap (group_btree_axioms)',
+                     'rule R9 (closure parameter types / ensures added by ordinal) and R10 (listed textual rewrites: the MemoryAreas pointer captured by the Emitter becomes an explicit parameter of CodeCache::call)',
+                     'CodeCache::translate_code_block and CodeCache::call are external_body with assumed contracts (what C01/C02 establish per instruction); ExecutableMemory is opaque; is_translation is uninterpreted']
+PROPS['C03'] = {
+    'level': 'proof', 'verus': ['codecache'], 'trusted_base': _CC_TB, 'design_ref': 'DESIGN.md 5.3',
+    'technique': 'Verus contracts on cache/blocks.rs (BTreeMap view keyed by (bank, address)), CodeCache lookup/insert, and the jit head of Core::run_code_block: lookups and insertions require tags fresh w.r.t. the mapped bank; invariant lemmas',
+    'level_text': 'CacheRegion::{new,insert,get,set_bank}, CachedBlocks::{new,set_rom_bank,get_region,get_region_mut}, MemoryLocation::{new,as_u32}, CodeCache::{set_rom_bank,get_address_for_ip,insert_code_block} are proved against a Map<(bank,address),CodeBlock> view; Core::run_code_block (feature jit) is proved to establish tag_fresh (rom_low tag 0, rom_high tag = the bank currently visible, i.e. the controller bank reduced to the ROM size) before every lookup/translation, and to call only an offset that is a translation of the bytes currently mapped at PC; lemma_hit_is_current / lemma_insert_keeps_inv show that the invariant "every entry is a translation of its own (bank, address)" survives any interleaving of insertions and bank switches because ROM is immutable (C10 frame).',
+    'level_note': 'What "is a translation of" means operationally is C01; here it is an uninterpreted predicate established by the assumed contract of translate_code_block and consumed by the assumed contract of call. The block loop of translate_code_block (incl. the stop at 0x4000) is not under contract.',
+    'assumptions': ['executable memory is append-only: earlier translations stay valid when new code is emitted (part of the assumed translate_code_block contract)'],
+}
+PROPS['C04'] = {
+    'level': 'proof', 'verus': ['core_step', 'codecache'], 'trusted_base': _CC_TB, 'design_ref': 'DESIGN.md 5.4',
+    'technique': 'Core::run_code_block extracted twice (cfg jit on / off, rule R4) and proved against the SAME relational postcondition block_post over interp_block, catch-up and irq_post',
+    'level_text': 'Both build variants of Core::run_code_block are proved to satisfy block_post(old, new): registers/memory = the interpreter\'s block effect, IME/run-state from the status class, last_block_cycle_length, device catch-up of exactly 4 x block cycles, then interrupt dispatch. In the jit variant this needs: can_dynarec(ip) <=> ip < 0x8000 (RAM code is interpreted), fresh tags, a cache hit or fresh translation being a translation of the currently mapped bytes (C03), and the assumed contract of CodeCache::call (= C01 + C02). Equal states stepped by either variant therefore satisfy the same relation, step after step.',
+    'level_note': 'Proof modulo C01-C03 as stated; device state hidden behind MemoryAreas::run_clock_cycles is a deterministic function of (state, cycles) only up to the contracts used (timer, LCD schedule, DMA); serial output is C18.',
+    'assumptions': ['interpreter::run_code_block / CodeCache::call: at most 0x30005 machine cycles per block (no u32 overflow of Registers.cycles)'],
 }
 
 HOOK_COMMITS = ['e7167ea']
